@@ -182,7 +182,7 @@ def check_case(case) -> Result:
             f_ = fl if which == "this" else fl_other
             return np.concatenate([np.asarray(f_.oil_FVF(arr_np), float), np.asarray(f_.oil_viscosity(arr_np), float), np.asarray(f_.water_viscosity(arr_np), float), [float(f_.pressure_bubblepoint())]])
 
-        lib("Fluid methods", history_independent, res, "C19/independent-of-other-objects", _both, ("this",), [("other",)], "Fluid.oil_FVF / oil_viscosity / water_viscosity / pressure_bubblepoint")
+        lib("Fluid methods", history_independent, res, "C19/independent-of-other-objects", _both, ("this",), [("other",)], "Fluid.oil_FVF / oil_viscosity / water_viscosity / pressure_bubblepoint", 1e-10)
         for name, call, want in pairs:
             got = lib(f"Fluid.{name}", call)
             _close(res, "C19/fluid-delegation", got, want, 1e-13, f"Fluid({T!r},{api!r},{sg!r},{gor!r},salinity={sal!r}).{name} on {list(ps)} (tpc={tpc!r}, ppc={ppc!r})")
